@@ -114,6 +114,10 @@ def history_shard(acc, sh, deadline):
                     core.add_viol(acc, 'call %d of history %d (pool entry %d, after entries %s): %s; the same call alone in a fresh interpreter gives %s' % (
                         pos, h, i, seq[max(0, pos - 4):pos], describe(got), describe(want)), case, {'source': (pool[i]['src'] or '<include tree>')[:400]})
                     break
+                if got.get('externals_changed_by_the_failing_call'):
+                    core.add_viol(acc, 'call %d of history %d (pool entry %d) failed (%s) and left the caller\'s external symbols changed: %r' % (
+                        pos, h, i, got.get('msg', '')[:60], got['externals_changed_by_the_failing_call']), case, {'source': (pool[i]['src'] or '')[:400]})
+                    break
                 if got.get('again_with_the_same_tables') not in (None, got.get('out')):
                     core.add_viol(acc, 'call %d of history %d (pool entry %d): building the same source again with the tables the first build left gives %s.., the first build gave %s..' % (
                         pos, h, i, got['again_with_the_same_tables'][:24], got.get('out', '')[:24]), case, {'source': (pool[i]['src'] or '')[:400]})
